@@ -33,6 +33,10 @@ def TokKind.all : List TokKind :=
 def TokKind.patterns : List String :=
   ["\\[", "\\]", "\\(", "\\)", "{", "}", ";", ",", "#.*$", "/\\*[\\s\\S]*?\\*/", "text:[\\s\\S]*?[\\r\\n]+\\.\\r?$", "\"([^\"\\\\]|\\\\.)*\"", "[a-zA-Z_][\\w]*", ":[a-zA-Z_][\\w]*", "[0-9]+[KMGkmg]?"]
 
+/-- how `Lexer` compiles its rules and what it skips between tokens (`re.MULTILINE`; white space `\s+`), as modelled -/
+def TokKind.auxPatterns : List (String × String) :=
+  [("compile regexp", "<dynamic>  flags re.MULTILINE"), ("compile wsregexp", "\\s+  flags re.M")]
+
 structure Tok where
   kind : TokKind
   pos  : Nat
